@@ -3,6 +3,7 @@ package main
 import (
 	"bytes"
 	"fmt"
+	"io"
 	"math/rand"
 	"unsafe"
 
@@ -590,6 +591,11 @@ func checkRow(f *xfails, step int, s Step) {
 }
 
 // checkStream: the items of the behaviour as one stream.
+// plainWriter is an io.Writer and nothing else (no WriteString, no ReadFrom ...)
+type plainWriter struct{ b []byte }
+
+func (p *plainWriter) Write(b []byte) (int, error) { p.b = append(p.b, b...); return len(b), nil }
+
 func checkStream(f *xfails, step int, cs []xcase) {
 	total := 0
 	var want []byte
@@ -631,6 +637,33 @@ func checkStream(f *xfails, step int, cs []xcase) {
 	if !bytes.Equal(w.Bytes(), buf) {
 		f.add(step, "verdict", "xbinary: stream: ObjectsWriter and Marshal emitted different bytes", clip(w.Bytes()), clip(buf))
 		return
+	}
+	// ONE ObjectsWriter whose (public) Writer field is pointed at another destination before every item - a bytes.Buffer,
+	// a writer that is nothing but an io.Writer, another bytes.Buffer, round robin: every destination receives exactly the
+	// encodings of the items written while it was the Writer, in order
+	{
+		var d0, d2 bytes.Buffer
+		var d1 plainWriter
+		dests := []io.Writer{&d0, &d1, &d2}
+		wants := make([][]byte, 3)
+		ow := &xbinary.ObjectsWriter{}
+		for i, c := range cs {
+			ow.Writer = dests[i%3]
+			r := xWrite(ow, c.x)
+			if r.panic != nil || r.err != nil || r.n != c.size {
+				f.add(step, "verdict", "xbinary: stream: ObjectsWriter."+fnName("Write", c.x.kind)+" failed or reported a wrong length after its Writer was replaced",
+					map[string]any{"n": r.n, "err": fmt.Sprint(r.err), "panic": fmt.Sprint(r.panic)}, c.size)
+				return
+			}
+			wants[i%3] = append(wants[i%3], c.enc...)
+		}
+		for i, got := range [][]byte{d0.Bytes(), d1.b, d2.Bytes()} {
+			if !bytes.Equal(got, wants[i]) {
+				f.add(step, "verdict", "xbinary: stream: an ObjectsWriter whose Writer was replaced between items did not write each item to the Writer of the moment",
+					clip(got), clip(wants[i]))
+				return
+			}
+		}
 	}
 	// decode in order; consumed must add up to the whole stream
 	for _, newBuf := range []bool{false, true} {
